@@ -2722,6 +2722,7 @@ class op(object):
                 else:
                     varname = str(k)
                 varname = varname[:(7-len(str(i)))] + '_' + str(i)
+                pos = f.tell()
 
                 if v in self.objective._linear._coeff:
                     cf = self.objective._linear._coeff[v]
@@ -2764,6 +2765,13 @@ class op(object):
                                  f.write(4*' ' + varname[:8].rjust(8))
                                  f.write(2*' ' + conname[:8].rjust(8))
                                  f.write(2*' ' + '% 7.5E\n' %cf[0,0])
+
+                if f.tell() == pos:
+                    # a column without nonzero coefficients: the BOUNDS 
+                    # section refers to it, so it needs an entry 
+                    f.write(4*' ' + varname[:8].rjust(8))
+                    f.write(2*' ' + '%8s' %'cost')
+                    f.write(2*' ' + '% 7.5E\n' %0.0)
                         
         f.write('RHS\n') 
         for j in range(len(constraints)):
